@@ -54,7 +54,10 @@ Definition lcase_ok (l : lcase) : bool :=
 Record ccase := mkClosing { cearly : bool; creturned : bool; cunack : N }.
 Definition ccase_ok (c : ccase) : bool := negb (cearly c) && creturned c && (cunack c =? 1)%N.
 
-Inductive special := SLis (l : lcase) | SClosing (c : ccase).
+(* a client that has stopped reading, so that the broker's writer is blocked in its Write, and then (kind 0) another
+   connection takes the client id over, (1) the broker is stopped, (2) the keep-alive runs out: the CONNECT must be
+   answered / Stop must return / the Will must be published, and the stalled connection must be closed *)
+Inductive special := SLis (l : lcase) | SClosing (c : ccase) | SStalled (kind : N) (ok closed : bool).
 
 Record case := mkCase { pre : bool; steps : list stepobs; ran : bool; lis : option special }.
 
@@ -87,7 +90,7 @@ Fixpoint check (cands : list st) (ss : list stepobs) : bool :=
   end.
 
 Definition case_ok (c : case) : bool :=
-  ran c && match lis c with Some (SLis l) => lcase_ok l | Some (SClosing x) => ccase_ok x | None => check [init (pre c)] (steps c) end.
+  ran c && match lis c with Some (SLis l) => lcase_ok l | Some (SClosing x) => ccase_ok x | Some (SStalled _ ok closed) => ok && closed | None => check [init (pre c)] (steps c) end.
 
 Fixpoint mismatches_from (i : nat) (cs : list case) : list nat :=
   match cs with
